@@ -512,3 +512,147 @@ def classify():
 
 def build(key, variant, seed):
     return RECIPES[key][variant](random.Random(seed))
+
+
+# ================================================================== call sequences on ONE stateful object
+# The anchored files have objects that keep tensors between calls (planar_mesh: heights / triangles; propagator: kernel cache,
+# distances; the loss objects: targets, masks, filter kernels; display_color_hvs: cone matrices).  A valid use is a SEQUENCE of
+# objectives on one object, each back-propagated on its own with a plain backward (no retain_graph) before the parameters change
+# (gradient accumulation over ray batches, a regulariser followed by a data term, several planes of one propagator).  For every
+# objective of such a sequence the oracle requires: no exception, a finite gradient, and the same gradient a FRESH object gives
+# for that objective alone (the fresh-object gradients are the ones the sweep compares with central differences).
+class Seq:
+    def __init__(s, name, fresh, objectives, note=''):
+        s.name, s.fresh, s.objectives, s.note = name, fresh, objectives, note      # objectives: [(label, fn(obj, leaves) -> scalar, [compare leaf k with fresh?])]
+
+
+def q_mesh(rng):
+    h = np.array([[[0.02], [-0.03]], [[0.05], [0.01]]]) + U(rng, (2, 2, 1), -0.004, 0.004)
+    rays = torch.tensor(MESH_RAYS, dtype=torch.float32); rays[:, 1] = rays[:, 1] / rays[:, 1].norm(dim=1, keepdim=True)
+    w = torch.tensor(U(rng, (2, 3), 0.5, 1.5), dtype=torch.float32)
+
+    def fresh():
+        mesh = lr().planar_mesh(size=torch.tensor([1., 1.]), number_of_meshes=torch.tensor([2, 2]), heights=torch.tensor(h, dtype=torch.float32),
+                                angles=torch.tensor([3., -4., 5.]), offset=torch.tensor([0.01, 0.02, 0.03]))
+        return mesh, [mesh.heights]
+
+    def smooth(mesh, lv):
+        t = mesh.get_triangles()
+        return ((t[:, 0, 2] - t[:, 1, 2]) ** 2).sum() + ((t[:, 1, 2] - t[:, 2, 2]) ** 2).sum()
+
+    def ray_term(sel):
+        def f(mesh, lv):
+            rr, nn = mesh.mirror(rays[sel])
+            if rr.shape[0] == 0: raise RuntimeError('recipe: no ray hits the mesh')
+            return (rr * w).sum() + (nn[:, 1] * w[1]).sum()
+        return f
+    return Seq('planar_mesh', fresh, [('smoothness of get_triangles', smooth, [True]), ('mirror rays 0-1', ray_term(slice(0, 2)), [True]),
+                                      ('mirror rays 1-2', ray_term(slice(1, 3)), [True]), ('get_squares', lambda m, lv: (m.get_squares() ** 2).sum(), [True]),
+                                      ('mirror rays 0-1 again', ray_term(slice(0, 2)), [True])])
+
+
+def q_propagator(ptype, method):
+    def f(rng):
+        shape = (6, 5)
+        am, ph = U(rng, shape, 0.4, 1.2), U(rng, shape, -3, 3)
+
+        def fresh():
+            return make_prop(ptype, method), [torch.tensor(am, dtype=torch.float32, requires_grad=True), torch.tensor(ph, dtype=torch.float32, requires_grad=True)]
+
+        def planes(*keys):
+            def g(P, lv):
+                u = lw().generate_complex_field(lv[0], lv[1])
+                return sum(((P(u, c, d).abs() ** 2) * (1 + c + 2 * d)).sum() for c, d in keys)
+            return g
+        return Seq('propagator[%s, %s]' % (ptype, method), fresh,
+                   [('plane (0,1), kernel generated', planes((0, 1)), [True, True]), ('plane (0,1), from the cache', planes((0, 1)), [True, True]),
+                    ('cached (0,1) and first request of (1,0) in one graph', planes((0, 1), (1, 0)), [True, True]),
+                    ('cached (1,0), cached (0,1) and first request of (0,0) in one graph', planes((1, 0), (0, 1), (0, 0)), [True, True]),
+                    ('plane (0,0), from the cache', planes((0, 0)), [True, True])])
+    return f
+
+
+def q_propagator_distances(rng):
+    shape = (6, 5)
+    ph = U(rng, shape, -3, 3)
+    dist = [WAVE['z'], WAVE['z'] * 1.3]
+
+    def fresh():
+        d = torch.tensor(dist, dtype=torch.float32, requires_grad=True)
+        P = lw().propagator(resolution=[6, 5], wavelengths=[WAVE['lam']], pixel_pitch=WAVE['dx'], number_of_frames=1, distances=d,
+                            propagation_type='Impulse Response Fresnel', propagator_type='forward', aperture_samples=[2, 2, 1, 1])
+        return P, [torch.tensor(ph, dtype=torch.float32, requires_grad=True), d]
+
+    def plane(dp):
+        def g(P, lv):
+            return (P(lw().generate_complex_field(1., lv[0]), 0, dp).abs() ** 2).sum()
+        return g
+    # the cache holds DETACHED kernels by design: a cached call has no gradient w.r.t. the distances, so only the phase gradient is compared there
+    return Seq('propagator[learnable distances, Impulse Response Fresnel]', fresh,
+               [('plane 0, kernel generated', plane(0), [True, True]), ('plane 0, from the cache', plane(0), [True, False]), ('plane 0, from the cache again', plane(0), [True, False]),
+                ('plane 1, kernel generated', plane(1), [True, True]), ('plane 1, from the cache', plane(1), [True, False])],
+               note='distances is a tensor that requires grad')
+
+
+def q_object(name, make, shape, lo, hi, call=None, nin=1):
+    def f(rng):
+        xs = [U(rng, shape, lo, hi) for _ in range(nin)]
+        if nin == 2: xs[1] = xs[0] + U(rng, shape, 0.05, 0.25) * np.where(U(rng, shape, 0, 1) < 0.5, -1.0, 1.0)
+        w = [rng.uniform(0.5, 1.5) for _ in range(3)]
+
+        def fresh():
+            return make(), [torch.tensor(x, dtype=torch.float32, requires_grad=True) for x in xs]
+
+        def obj(k):
+            def g(o, lv):
+                r = call(o, lv) if call else o(*lv)
+                return (cat(r) * w[k]).sum() if isinstance(r, (list, tuple)) or r.numel() > 1 else r * w[k]
+            return g
+        return Seq(name, fresh, [('call %d' % (k + 1), obj(k), [True] * nin) for k in range(3)])
+    return f
+
+
+def _mp(cls):
+    def make():
+        from odak.learn.wave import loss as L
+        g = np.random.default_rng(11)
+        return getattr(L, cls)(torch.tensor(g.uniform(0.1, 0.9, (3, 8, 8)), dtype=torch.float32), torch.tensor(g.uniform(0, 1, (8, 8)), dtype=torch.float32), target_blur_size=3, number_of_planes=3)
+    return make
+
+
+def _wl(cls, **kw):
+    def make():
+        from odak.learn.wave import loss as L
+        return getattr(L, cls)(**kw)
+    return make
+
+
+SEQUENCES = {
+    'planar_mesh': q_mesh,
+    'propagator_forward_bl': q_propagator('forward', 'Bandlimited Angular Spectrum'),
+    'propagator_back_and_forth_tf': q_propagator('back and forth', 'Transfer Function Fresnel'),
+    'propagator_forward_ir': q_propagator('forward', 'Impulse Response Fresnel'),
+    'propagator_learnable_distances': q_propagator_distances,
+    'multiplane_loss': q_object('multiplane_loss', _mp('multiplane_loss'), (3, 8, 8), 0.3, 0.7, call=lambda o, lv: o(lv[0], lv[1], plane_id=1), nin=2),
+    'perceptual_multiplane_loss': q_object('perceptual_multiplane_loss', _mp('perceptual_multiplane_loss'), (3, 8, 8), 0.3, 0.7, call=lambda o, lv: o(lv[0], lv[1], plane_id=1), nin=2),
+    'phase_gradient': q_object('phase_gradient', _wl('phase_gradient'), (1, 1, 6, 6), -3, 3),
+    'speckle_contrast': q_object('speckle_contrast', _wl('speckle_contrast', kernel_size=3, step_size=(1, 1)), (1, 1, 6, 6), 0.2, 1.5),
+    'display_color_hvs': q_object('display_color_hvs', hvs, (1, 3, 2, 2), 0.1, 0.9, nin=2),
+}
+# classes of the anchored files whose instances keep tensors between calls; each needs a sequence recipe (fail closed)
+STATEFUL = {'planar_mesh': ['planar_mesh'], 'propagator': ['propagator_forward_bl', 'propagator_back_and_forth_tf', 'propagator_forward_ir', 'propagator_learnable_distances'],
+            'multiplane_loss': ['multiplane_loss'], 'perceptual_multiplane_loss': ['perceptual_multiplane_loss'], 'phase_gradient': ['phase_gradient'],
+            'speckle_contrast': ['speckle_contrast'], 'display_color_hvs': ['display_color_hvs']}
+STATELESS = {'PSNR': 'no attribute', 'SSIM': 'no attribute; delegates to torchmetrics', 'MSSSIM': 'no attribute; delegates to torchmetrics'}
+
+
+def classes():
+    out = []
+    for rel in ANCHORS:
+        for n in ast.parse(open(os.path.join(shim.REPO, rel)).read()).body:
+            if isinstance(n, ast.ClassDef): out.append(n.name)
+    return out
+
+
+def build_sequence(name, seed):
+    return SEQUENCES[name](random.Random(seed))
